@@ -1590,6 +1590,11 @@ class IrregularParameterGrid(object):
         usefull when interpolation or gradient methods require an extra bin on
         each side of the grid.
         """
+        if self._grid.size < 2:
+            raise ValueError(
+                'The grid must have at least two grid points in order to add '
+                'an extra lower and upper bin!')
+
         newgrid = np.empty((self._grid.size+2,))
         newgrid[1:-1] = self._grid
         newgrid[0] = newgrid[1] - (newgrid[2] - newgrid[1])
